@@ -392,7 +392,12 @@ class Ctx:
 
     def st_Raise(self, s, fr):
         if s.exc is None:
-            raise Unsupported("bare raise")
+            f = fr
+            while f is not None and getattr(f, "current_exc", None) is None:
+                f = f.closure
+            if f is None:
+                self.raise_exc("RuntimeError", ("No active exception to reraise",))
+            raise PyRaise(f.current_exc)
         v = self.eval(s.exc, fr)
         if isinstance(v, Ext) and isinstance(v.obj, type):
             v = self.call(v, [], {})
@@ -636,7 +641,12 @@ class Ctx:
                     if h.type is None or self.exc_matches(e.exc, self.eval(h.type, fr)):
                         if h.name:
                             fr.locals[h.name] = self.alloc(e.exc) if not hasattr(e.exc, "obj") else e.exc.obj
-                        self.exec_block(h.body, fr)
+                        prev = getattr(fr, "current_exc", None)
+                        fr.current_exc = e.exc
+                        try:
+                            self.exec_block(h.body, fr)
+                        finally:
+                            fr.current_exc = prev
                         break
                 else:
                     raise
